@@ -531,6 +531,28 @@ def section_product():
                                 want = brute(fs, dimlist, i, j, n, ninf)
                                 if not np.allclose(got, want):
                                     fail("product", "cauchy_dot_product differs from the double sum", factors=nf, ninf=ninf, index=(i, j) + n, factors_defined_by=style)
+    # bilinearity across magnitudes: factors given in very different units ((2^-40 A)(2^40 B) = A B exactly - powers of two - whatever the size of the entries;
+    # also blocks all of whose entries are tiny but not zero)
+    for ninf, maxo, scales in ((1, 2, (-40, 40)), (2, 1, (40, -40)), (1, 2, (-30, -30)), (1, 1, (-35, 0, 35)), (1, 2, (-60, -60))):
+        nf = len(scales)
+        nbs = [2] * (nf + 1)
+        dimlist = [[2, 1] for _ in nbs]
+        fs = [mkseries(2, 2, (dimlist[k], dimlist[k + 1]), ninf, maxo, 0.2, with_one=(k == 0 and scales[0] == 0)) for k in range(nf)]
+
+        def scaled(S, e):
+            return BlockSeries(data={k: (v if (v is zero or v is one) else v * 2.0 ** e) for k, v in S._data.items()}, shape=S.shape, n_infinite=S.n_infinite)
+        for herm in (False,):
+            P = cauchy_dot_product(*[scaled(f, e) for f, e in zip(fs, scales)], hermitian=herm)
+            tot = 2.0 ** sum(scales)
+            for i in range(2):
+                for j in range(2):
+                    for n in itertools.product(range(maxo + 1), repeat=ninf):
+                        cases += 1
+                        got = dense(P[(i, j) + n], (dimlist[0][i], dimlist[-1][j]))
+                        want = brute(fs, dimlist, i, j, n, ninf) * tot
+                        if not np.array_equal(got, want):
+                            fail("product", "cauchy_dot_product is not bilinear across magnitudes: rescaling the factors by powers of two changes more than the scale of the product",
+                                 scales=scales, ninf=ninf, index=(i, j) + n, got=np.abs(got).max(), want=np.abs(want).max())
     # hermitian=True on adjoint pairs, 2 and 3 factors, with `one` at zeroth order
     from sympy.physics.quantum import Dagger
     for ninf, maxo in ((1, 3), (2, 2)):
